@@ -1,6 +1,9 @@
 import Driver.Util
--- engines of work area Sys: import your Driver.<Engine> modules above and list them here
+import Driver.Pipe
+import Driver.Sys
 namespace Driver.Reg.Sys
 def engines : List (String × IO UInt32) := [
+  ("pipe", Driver.runEngine Driver.Pipe.engine),
+  ("sys", Driver.runEngine Driver.Sys.engine)
 ]
 end Driver.Reg.Sys
